@@ -22,7 +22,7 @@ RULE = ("G-sim traces (1-3 ranks, launches with the documented launch names cuda
 ASSUMPTIONS = [
     "fewer than two ProfilerStep annotations (no trimming; trimming is C12)",
     "kernel launches = the names the API documents (cudaLaunchKernel, cudaLaunchKernelExC, the MTIA launch)",
-    "correlation ids unique per pair",
+    "correlation ids unique per pair within one file (ranks may use the same id range)",
 ]
 KERNEL_LAUNCH = set(vocab.DOC_KERNEL_LAUNCHES)
 MEM_LAUNCH = {vocab.MEMCPY_LAUNCH, vocab.MEMSET_LAUNCH}
@@ -89,6 +89,8 @@ def check(case: Dict[str, Any]) -> CaseInfo:
     classes.append("with_memory" if p["memory"] else "without_memory")
     if len(want_ranks) > 1:
         classes.append("multi_rank_request")
+        if case.get("shared_corr"):
+            classes.append("multi_rank_request_same_correlation_ids")
     return CaseInfo(nontrivial=nontrivial, classes=classes)
 
 
@@ -113,5 +115,6 @@ def view(case):
 def campaigns(tier: str) -> List[Campaign]:
     return [Campaign("launch_stats", c15_case(), check, quick=480, thorough=24000, quick_shards=8,
                      required_classes={"clipped_delay": 0.2, "positive_delay": 0.2, "memory_launch": 0.2,
-                                       "linked_non_launch_call": 0.1, "without_memory": 0.1, "mtia_launch": 0.05},
+                                       "linked_non_launch_call": 0.1, "without_memory": 0.1, "mtia_launch": 0.05,
+                                       "multi_rank_request_same_correlation_ids": 0.03},
                      sample_view=view)]
